@@ -15,7 +15,7 @@ import shutil
 
 META = dict(
     id="C51",
-    specs=["DirDbm.tla", "DirDbmImpl.tla", "DirDbmMC.tla", "DirDbmTrace.tla", "DirDbmImplTrace.tla", "lib/FsModel.tla"],
+    specs=["DirDbm.tla", "DirDbmImpl.tla", "DirDbmMC.tla", "DirDbmTrace.tla", "DirDbmImplTrace.tla", "DirDbmSim.tla", "lib/FsModel.tla"],
     technique="TLA+ spec of the DirDBM write/replace/delete/recovery algorithm over a file-system model, TLC exhaustive over all histories with a crash at every step (nested in recovery) + TLC trace validation of real DirDBM executions with injected crashes at every intercepted file-system call and every partial-write length",
     level_text="TLC proves on the design (DirDbmImpl over FsModel) that for every history of up to the stated number of set/replace/delete operations with a crash between any two file-system steps, inside the write and inside recovery, the reopened database shows exactly the committed values with the interrupted key old or new and no stray or partial entry; every recorded execution of the real DirDBM (real files, crash injected at every file-system call index and partial-write length, real recovery, nested crashes) is validated by TLC against the property specification DirDbm, and its file-system call sequence against the design.",
     level_note="Trusted: TLC; the interception layer (a crash = BaseException at a mutating call, all later mutating calls of the dead process fail, user-space buffers are lost); process-crash model only (the file system applies calls atomically and in order: no power-loss reordering, no fsync reasoning). Keys/values are abstracted to identities. Histories longer than the enumerated depth are sampled. The database directory name is fixed (names containing glob metacharacters are outside the property's quantifier, see notes).",
@@ -160,8 +160,8 @@ def run_trace(work, hist, plans, seq=[0]):
                 d = x
         ev.extend(tap.events)
         calls[j] = list(tap.calls)
-        if st == "ok" and plan and plan.get("after") and plan["at"] >= len(tap.calls):
-            st = "crash"
+        if st in ("ok", "exc") and plan and plan.get("after") and plan["at"] >= len(tap.calls):
+            st = "crash"        # died after its last file-system call, before returning / raising
         if st == "ok":
             ev.append({"e": "ret", "res": "ok"})
         elif st == "exc":
@@ -181,7 +181,7 @@ def run_trace(work, hist, plans, seq=[0]):
                 st2, x2 = run_tapped(tap2, lambda: DirDBM(dbpath))
                 ev.extend(tap2.events)
                 rec_calls[j].append(list(tap2.calls))
-                if st2 == "ok" and a and a[1] and a[0] >= len(tap2.calls):
+                if st2 in ("ok", "exc") and a and a[1] and a[0] >= len(tap2.calls):
                     st2 = "crash"
                 if st2 == "ok":
                     d = x2
@@ -300,6 +300,45 @@ def random_history(rng, nops, nkeys, with_empty_key=False, with_empty_val=False)
         else:
             ops.append(["reopen"])
     return Hist(make_keys(rng, nkeys, with_empty_key), make_vals(rng, max(nv, 1), with_empty_val), ops)
+
+
+# --------------------------------------------------------------------------- spec -> code (behaviours generated by TLC)
+def beh_to_case(b):
+    """A behaviour of DirDbmImpl (list of predicted observables) -> (Hist, plans) that drives the real DirDBM
+    along it: the same operations, the process killed at the same file-system call (after the same number
+    of calls; inside the write when the behaviour has a torn write)."""
+    ops, plans = [], {}
+    state, j, nfs, torn, maxv = "idle", -1, 0, False, 1
+    for e in b["hist"]:
+        t = e["e"]
+        if t in ("set", "del"):
+            ops.append(["set", e["k"], e["v"]] if t == "set" else ["del", e["k"]])
+            maxv = max(maxv, e.get("v", 0))
+            j, nfs, torn, state = len(ops) - 1, 0, False, "op"
+        elif t == "reopen":
+            if state == "idle":
+                ops.append(["reopen"])
+                j, nfs, torn, state = len(ops) - 1, 0, False, "op"
+            else:
+                nfs, state = 0, "rec"
+        elif t == "fs":
+            torn = torn or e["cls"] == "part"
+            nfs += 1
+        elif t == "crash":
+            if state == "op":
+                plans[j] = {"at": nfs - 1 if torn else nfs, "bytes": 1 if torn else 0, "after": True, "rec": []}
+            elif state == "rec":
+                plans[j]["rec"].append([nfs, True])
+            state = "down"
+        elif t == "ret":
+            state = "idle"
+    vals = [bytes([65 + i]) * 3 for i in range(maxv)]
+    return Hist([b"a", b"bb"], vals, ops), plans
+
+
+def observable(ev):
+    """The events a DirDbmImpl behaviour predicts (no listings, no views)."""
+    return [e for e in ev if e["e"] in ("set", "del", "reopen", "fs", "ret", "crash")]
 
 
 # --------------------------------------------------------------------------- diagnosis (labels only; TLC decided)
@@ -436,7 +475,7 @@ def run(ctx):
         traces.extend(enumerate_crashes(ctx.work, h, [len(ops) - 1], nested=ctx.pick(0, 1)))
     # (3) random longer histories over boundary keys/values (empty value, empty key, separators, long names),
     #     every crash point of some operations with nested recovery crashes; several crashes in one history
-    nrand = ctx.pick(30, 1200)
+    nrand = ctx.pick(30, 300)
     for i in range(nrand):
         h = random_history(rng, rng.randint(3, 8), rng.randint(1, 3), with_empty_key=(i % 10 == 3), with_empty_val=(i % 3 == 0))
         which = rng.sample(range(len(h.ops)), min(len(h.ops), ctx.pick(1, 2)))
@@ -448,6 +487,21 @@ def run(ctx):
                 plans[j] = {"at": rng.randint(0, 4), "bytes": rng.choice([0, 0, 1, 2]), "after": True,
                             "rec": [[rng.randint(0, 2), True] for _ in range(rng.choice([0, 0, 1, 2]))]}
         traces.append(run_trace(ctx.work, h, plans))
+    # (4) spec -> code: behaviours generated by TLC from the Impl specification are replayed on the real DirDBM
+    behs = ctx.simulate("DirDbmSim", "DirDbmSim.cfg", num=ctx.pick(20, 300), depth=36)
+    notrepro = 0
+    for b in behs:
+        h, plans = beh_to_case(b)
+        t = run_trace(ctx.work, h, plans)
+        pred = observable(b["hist"])
+        if observable(t["ev"])[:len(pred)] != pred:
+            notrepro += 1
+            if notrepro <= 3:
+                ctx.log("spec behaviour not reproduced by the real code (drift, not a violation): %s" % (t["plans"],))
+        traces.append(t)
+    ctx.extra["spec_behaviours_replayed"] = len(behs)
+    ctx.extra["spec_behaviours_not_reproduced"] = notrepro
+    ctx.impl_drift += notrepro
     ctx.log("recorded %d real executions (%d in the exhaustive part)" % (len(traces), n_exh))
     ctx.extra["crash_runs"] = sum(1 for t in traces if t["plans"])
     good_slim, nodrift = check(ctx, traces, "crash enumeration")
